@@ -71,7 +71,7 @@ type EvoScenario struct {
 	executor genetics.PopulationEpochExecutor
 	// hugePopulation (C17): thousands of organisms
 	hugePopulation bool
-	modular       bool // a modular start genome with crossovers (C17 only)
+	modular        bool // a modular start genome with crossovers (C17 only)
 	// switchThreshold: the copy of the options that takes over at SwitchOptsAt has another compatibility threshold as well (C08)
 	switchThreshold bool
 	// ownContext: the executor is handed the context the options object gives out itself (Options.NeatContext)
